@@ -24,11 +24,12 @@ JudgeA ==
     CASE Ev.op = "ctor"  -> JudgeCtor(Ev)
       [] Ev.op = "enc"   -> JudgeEnc(Ev, usedIV, usedCt)
       [] Ev.op = "dec"   -> JudgeDec(Ev, encs)
-      [] Ev.op = "ivset" -> JudgeIvSet(Ev)
+      [] Ev.op = "ivset" -> "ok"
       [] OTHER -> "unknown-event"
 JudgeB ==
     CASE Ev.op = "ctor"  -> DriftCtor(Ev)
-      [] Ev.op = "enc"   -> DriftEnc(Ev)
+      [] Ev.op = "ivset" -> JudgeIvSet(Ev)
+      [] Ev.op = "enc"   -> (IF StructEnc(Ev, usedIV) # "ok" THEN StructEnc(Ev, usedIV) ELSE DriftEnc(Ev))
       [] Ev.op = "dec"   -> DriftDec(Ev)
       [] OTHER -> "ok"
 Judge == IF JudgeA # "ok" THEN JudgeA ELSE IF Layer = "B" THEN JudgeB ELSE "ok"
